@@ -31,7 +31,7 @@ def doc_text(evs):
     lines, at_line = [], {}
     for i, (k, l) in enumerate(evs, 1):
         at_line[i] = len(lines) + 1
-        lines += [f"R{i} [^{l}]" if k == "ref" else f"[^{l}]: D{i}", ""]
+        lines += [{"ref": f"R{i} [^{l}]", "def": f"[^{l}]: D{i}", "hr": "***", "head": f"# {l}"}[k], ""]
     return "\n".join(lines) + "\n", at_line
 
 
@@ -86,7 +86,7 @@ def observe(case):
             continue
         tgt = doc.ids.get(frs[0]["refid"])
         if tgt is None or id(tgt) not in at_of:
-            refview.append([-2, -2])
+            refview.append([0, 0] if tgt is not None else [-2, -2])      # (resolved by docutils to something that is no footnote: no definition, no claim)
             continue
         t = frs[0].astext()
         refview.append([didx[at_of[id(tgt)]], int(t) if t.isdigit() else -1])
@@ -94,23 +94,33 @@ def observe(case):
             problems.append(f"reference R{i} is not among the back-references of its footnote")
     # top-level order
     final = []
-    for c in doc.children:
+
+    def flat(node):
+        for c in node.children:
+            if isinstance(c, nodes.section):
+                if "system-messages" in c.get("classes", []):
+                    continue
+                yield from flat(c)
+            else:
+                yield c
+    for c in flat(doc):
         if isinstance(c, nodes.paragraph):
             m = re.match(r"R(\d+)\b", c.astext())
             final.append(["p", int(m.group(1))] if m else ["?"])
+        elif isinstance(c, nodes.title):
+            final.append(["s", line_at.get(c.line, -1)])
         elif isinstance(c, nodes.footnote):
             final.append(["f", didx.get(at_of.get(id(c)), -1)])
         elif isinstance(c, nodes.transition):
-            final.append(["t"])
+            final.append(["t"] if "footnotes" in c.get("classes", []) else ["h", line_at.get(c.line, -1)])
         elif isinstance(c, nodes.system_message):
-            final.append(["w", line_at.get(c.get("line"), -1)])
-        elif isinstance(c, nodes.section) and "system-messages" in c.get("classes", []):
-            continue
+            if "[ref.footnote]" in c.astext():
+                final.append(["w", line_at.get(c.get("line"), -1)])      # (docutils' own messages, e.g. about a final transition, are not MyST's)
         else:
             final.append(["?", c.tagname])
-    nested = [f for f in fns if not isinstance(f.parent, nodes.document)]
+    nested = [f for f in fns if not isinstance(f.parent, (nodes.document, nodes.section))]
     if nested:
-        problems.append("footnote not at document level")
+        problems.append("footnote not at document/section level")
     dupw, unrefw = [], []
     for w in warns:
         if w["tag"] != "ref.footnote":
@@ -137,19 +147,22 @@ def run(ctx):
                 "V: random arrangements of 3-30 blocks over 12 labels. non-trivial = at least one definition and one reference")
     ctx.assumptions += ["docutils front end (publish_doctree); every reference in its own paragraph, definitions at top level"]
     n = 4 if quick else 5
-    consts = {"Labels": {"a", "b", "1", "2"}, "MaxEv": n}
+    consts = {"Labels": {"a", "b", "1", "2"}, "MaxEv": n, "WithHr": False, "WithHead": False}
     r = tlc.run("Footnotes", tlc.cfg(ctx, "fn_mc.cfg", consts, invariants=INVS + ["Emit"], properties=["Terminates"]), wd=ctx.wd, timeout=3000)
     tlc.expect_holds(r, "Footnotes M |= S")
     ctx.add_tlc("Footnotes_mc", r, f"arrangements <= {n} x 4 flag settings")
     want = sum(8 ** k for k in range(n + 1)) * 4
     if len(r.records) != want:
         raise tlc.MachineryFailure(f"Footnotes: {len(r.records)} behaviours exported, expected {want}")
-    rc = tlc.run("Footnotes", tlc.cfg(ctx, "fn_cov.cfg", {**consts, "MaxEv": 3}, invariants=INVS), wd=ctx.wd, coverage=True)
-    for act in ("RenderRef", "RenderDef", "RenderEnd", "SortStep", "NumberStep", "DetectStep", "CollectStep"):
+    r2 = tlc.run("Footnotes", tlc.cfg(ctx, "fn_mc2.cfg", {"Labels": {"a", "1"}, "MaxEv": n, "WithHr": True, "WithHead": True}, invariants=INVS + ["Emit"]), wd=ctx.wd, timeout=3000)
+    tlc.expect_holds(r2, "Footnotes[hr, headings] M |= S")
+    ctx.add_tlc("Footnotes_mc_hr_head", r2, f"arrangements <= {n} over ref/def x {{a, 1}}, thematic break, heading named like a label")
+    rc = tlc.run("Footnotes", tlc.cfg(ctx, "fn_cov.cfg", {**consts, "MaxEv": 3, "WithHr": True, "WithHead": True}, invariants=INVS), wd=ctx.wd, coverage=True)
+    for act in ("RenderRef", "RenderDef", "RenderOther", "RenderEnd", "SortStep", "NumberStep", "DetectStep", "CollectStep"):
         if rc.coverage.get(act, (0, 0))[0] == 0:
             raise tlc.MachineryFailure(f"Footnotes: action {act} never taken (vacuous)")
     ctx.add_tlc("Footnotes_cov", rc)
-    recs = r.records
+    recs = r.records + [x for x in r2.records if any(e[0] in ("hr", "head") for e in x["evs"])]
     outs = pmap(observe, recs, chunksize=64)
     for rec, o in zip(recs, outs):
         key = (repr(rec["evs"]), rec["sort"], rec["trans"])
@@ -181,6 +194,9 @@ def run(ctx):
         k = rnd.randint(3, 30)
         pool = rnd.sample(labels, rnd.randint(2, 7))
         evs = [[rnd.choice(["ref", "ref", "def"]), rnd.choice(pool)] for _ in range(k)]
+        for _ in range(rnd.choice([0, 0, 1, 2])):
+            evs.insert(rnd.randint(0, len(evs)), ["hr", "-"])
+        evs = [e for n, e in enumerate(evs) if not (e[0] == "hr" and n and evs[n - 1][0] == "hr")]
         cases.append({"id": t, "evs": evs, "sort": rnd.random() < 0.6, "trans": rnd.random() < 0.5})
     vouts = pmap(observe, cases, chunksize=16)
     traces, keep = [], {}
@@ -197,7 +213,7 @@ def run(ctx):
         traces.append({"id": c["id"], "evs": c["evs"], "sort": c["sort"], "trans": c["trans"], "obs": o["obs"]})
     tf = ctx.wd / "fn_traces.ndjson"
     tlc.write_ndjson(tf, traces)
-    rv = tlc.run("FootnotesTrace", tlc.cfg(ctx, "fn_trace.cfg", {"Labels": set(labels), "MaxEv": 0}, spec="TraceSpec", invariants=INVS + ["Verdict"]),
+    rv = tlc.run("FootnotesTrace", tlc.cfg(ctx, "fn_trace.cfg", {"Labels": set(labels), "MaxEv": 0, "WithHr": True, "WithHead": True}, spec="TraceSpec", invariants=INVS + ["Verdict"]),
                  wd=ctx.wd, env={"TRACE_FILE": str(tf)}, timeout=3000)
     tlc.expect_holds(rv, "FootnotesTrace: S on the traced runs")
     ctx.add_tlc("FootnotesTrace", rv)
